@@ -135,10 +135,17 @@ type ScriptDisp struct {
 	Desc string
 	Log  *EvLog
 	Hook func(name string) // step {op: hook, name: ...}: lets a history act from inside a handler (e.g. call Shutdown)
+	// DescHook, when set, runs inside VarlinkGetDescription (the library calls that from RegisterInterface)
+	DescHook func()
 }
 
-func (d *ScriptDisp) VarlinkGetName() string        { return d.Name }
-func (d *ScriptDisp) VarlinkGetDescription() string { return d.Desc }
+func (d *ScriptDisp) VarlinkGetName() string { return d.Name }
+func (d *ScriptDisp) VarlinkGetDescription() string {
+	if d.DescHook != nil {
+		d.DescHook()
+	}
+	return d.Desc
+}
 
 func peerOf(c varlink.ReadWriterContext) string {
 	if g, ok := c.(varlink.GetNetConn); ok {
